@@ -68,17 +68,41 @@ func (v descendAll) VisitOneOf(e pgs.OneOf) (pgs.Visitor, error)         { retur
 func (v descendAll) VisitService(e pgs.Service) (pgs.Visitor, error)     { return v.see(e) }
 func (v descendAll) VisitMethod(e pgs.Method) (pgs.Visitor, error)       { return v.see(e) }
 
+// failAt answers like descendAll until its k-th visit, which returns (itself, error).
+type failAt struct {
+	descendAll
+	left int
+}
+
+func (v *failAt) see(e interface{}) (pgs.Visitor, error) {
+	*v.trace = append(*v.trace, v.r.refOf(e))
+	if v.left--; v.left == 0 {
+		return v, fmt.Errorf("stop here")
+	}
+	return v, nil
+}
+func (v *failAt) VisitPackage(pgs.Package) (pgs.Visitor, error)       { return v, nil }
+func (v *failAt) VisitFile(e pgs.File) (pgs.Visitor, error)           { return v.see(e) }
+func (v *failAt) VisitMessage(e pgs.Message) (pgs.Visitor, error)     { return v.see(e) }
+func (v *failAt) VisitEnum(e pgs.Enum) (pgs.Visitor, error)           { return v.see(e) }
+func (v *failAt) VisitEnumValue(e pgs.EnumValue) (pgs.Visitor, error) { return v.see(e) }
+func (v *failAt) VisitField(e pgs.Field) (pgs.Visitor, error)         { return v.see(e) }
+func (v *failAt) VisitExtension(e pgs.Extension) (pgs.Visitor, error) { return v.see(e) }
+func (v *failAt) VisitOneOf(e pgs.OneOf) (pgs.Visitor, error)         { return v.see(e) }
+func (v *failAt) VisitService(e pgs.Service) (pgs.Visitor, error)     { return v.see(e) }
+func (v *failAt) VisitMethod(e pgs.Method) (pgs.Visitor, error)       { return v.see(e) }
+
 // accessorsOf lists the accessor names applicable to an entity kind.
 func accessorsOf(kind string) []string {
 	switch kind {
 	case "file":
-		return []string{"imports", "transitive", "dependents", "unused", "messages", "allMessages", "enums", "allEnums", "services", "exts", "walk", "syntax", "desc"}
+		return []string{"imports", "transitive", "dependents", "unused", "messages", "allMessages", "enums", "allEnums", "services", "exts", "walk", "walkfail", "syntax", "desc"}
 	case "msg":
-		return []string{"messages", "mapEntries", "fields", "oneofs", "enums", "exts", "allMessages", "allEnums", "nonOneof", "oneofFields", "synthFields", "realOneofs", "imports", "deps", "dpts", "walk", "desc"}
+		return []string{"messages", "mapEntries", "fields", "oneofs", "enums", "exts", "allMessages", "allEnums", "nonOneof", "oneofFields", "synthFields", "realOneofs", "imports", "deps", "dpts", "walk", "walkfail", "desc"}
 	case "enum":
 		return []string{"values", "edpts", "desc"}
 	case "service":
-		return []string{"methods", "imports", "walk", "desc"}
+		return []string{"methods", "imports", "walk", "walkfail", "desc"}
 	}
 	return nil
 }
@@ -223,6 +247,17 @@ func callAccessor(r *astRun, e pgs.Entity, acc string) []ref {
 		_ = pgs.Walk(descendAll{r, &tr}, e)
 		return tr
 	}
+	if acc == "walkfail" {
+		// a walk whose visitor returns an error half way (handing its visitor back as well): it sees
+		// the first half of the full walk and leaves no trace in the AST
+		full := []ref{}
+		_ = pgs.Walk(descendAll{r, &full}, e)
+		tr := []ref{}
+		if err := pgs.Walk(&failAt{descendAll{r, &tr}, (len(full) + 1) / 2}, e); err == nil && len(full) > 0 {
+			tr = append(tr, ref{0, []int{666666}}) // the error was swallowed
+		}
+		return tr
+	}
 	return []ref{{0, []int{555555}}}
 }
 
@@ -264,7 +299,7 @@ func (c06Engine) Run(raw json.RawMessage) (interface{}, error) {
 	canon := map[string][]ref{}
 	for _, en := range allEntities(a) {
 		for _, acc := range accessorsOf(en.kind) {
-			if acc == "walk" && inMapEntry(w, en.ref) {
+			if (acc == "walk" || acc == "walkfail") && inMapEntry(w, en.ref) {
 				continue
 			}
 			canon[en.ref.key()+acc] = callAccessor(a, en.e, acc)
@@ -375,7 +410,7 @@ func (c06Engine) Gen(g *Gen) {
 				continue
 			}
 			for _, acc := range accessorsOf(en.kind) {
-				if acc == "walk" && inMapEntry(w, en.ref) {
+				if (acc == "walk" || acc == "walkfail") && inMapEntry(w, en.ref) {
 					continue
 				}
 				cands = append(cands, cand{en.ref, acc})
@@ -400,7 +435,7 @@ func (c06Engine) Gen(g *Gen) {
 				for try := 0; try < 8; try++ {
 					c2 := cands[lr.Intn(len(cands))]
 					switch c2.acc {
-					case "dependents", "transitive", "unused", "deps", "dpts", "edpts", "nonOneof", "allMessages", "allEnums", "imports":
+					case "dependents", "transitive", "unused", "deps", "dpts", "edpts", "nonOneof", "allMessages", "allEnums", "imports", "walkfail", "walk":
 						c = c2
 						try = 8
 					}
